@@ -469,9 +469,9 @@ def _budget_slots(t):
     `DpAggregatesParameters { epsilon: e, delta: d, ..self }` (None for a field carried over by `..self`)."""
     if t is None:
         return None
-    if is_call_to(t, "DpAggregatesParameters::new") and len(t["args"]) >= 2:
+    if is_call_to(t, "DpAggregatesParameters::new", "Self::new") and len(t["args"]) >= 2:  # `Self` = DpAggregatesParameters inside its impl
         return {"epsilon": t["args"][0], "delta": t["args"][1]}
-    if t["k"] == "struct" and t["path"]["segs"][-1:] == ["DpAggregatesParameters"]:
+    if t["k"] == "struct" and t["path"]["segs"][-1:] in (["DpAggregatesParameters"], ["Self"]):
         fields = {fl["name"]: fl["e"] for fl in t["fields"]}
         if t.get("rest") is not None and path_of(t["rest"]) != "self":
             return None
@@ -513,7 +513,7 @@ def _v3bcd(rep, src):
     env = FnEnv(f)
     p = [pat_ident(x["pat"]) for x in nonself_params(f)]
     t = _tail_expr(f.body)
-    if t is None or not is_call_to(t, "DpAggregatesParameters::new") or len(p) != 2:
+    if t is None or not is_call_to(t, "DpAggregatesParameters::new", "Self::new") or len(p) != 2:
         raise Anchor("from_dp_parameters: expected `DpAggregatesParameters::new(..)` as the tail expression")
     for i, nm in ((0, "epsilon"), (1, "delta")):
         tt = norm(t["args"][i], env)
